@@ -559,10 +559,23 @@ pub fn c16(tier: Tier) -> i32 {
             if a < b && i.name() != j.name() && (a * 31 + b) % step == 0 {
                 trees.push(vec![i.clone(), j.clone(), elig[(a + b) % elig.len()].clone()]);
                 if tier == Tier::Thorough {
-                    trees.push(vec![i.clone(), elig[(a + b) % elig.len()].clone(), j.clone(), elig[(a + b + 1) % elig.len()].clone()]);
+                    let e1 = &elig[(a + b) % elig.len()];
+                    let e2 = &elig[(a + b + 2) % elig.len()];
+                    if e1.name() != e2.name() {
+                        trees.push(vec![i.clone(), e1.clone(), j.clone(), e2.clone()]);
+                    }
                 }
             }
         }
+    }
+    fn names_unique(es: &[Entry]) -> bool {
+        let mut seen = HashSet::new();
+        es.iter().all(|e| seen.insert(e.name().to_string()) && match e { Entry::Dir { children, .. } => names_unique(children), _ => true })
+    }
+    let before = trees.len();
+    trees.retain(|t| names_unique(t));
+    if trees.len() != before {
+        run.machinery(format!("tree generator produced {} trees with a repeated name in one directory", before - trees.len()));
     }
     let sel = Selection {
         opts: vec![opt::str_to_optimization("solidity_math"), opt::str_to_optimization("optimal_comparison")],
